@@ -174,6 +174,9 @@ def doOp (d : DSt) : List String → DSt × String
   | ["workers"] => (d, showWorkers d.s)
   | ["isrunning"] => (d, showBool d.s.running)
   | ["isstopped"] => (d, showBool d.s.stopped)
+  -- `ContextStopped()`: cancelled by `shutdown()` right after the stopped flag is stored, before the workers are
+  -- stopped; at quiescence it is cancelled exactly when the flag is set
+  | ["ctxstopped"] => (d, showBool d.s.stopped)
   | ["sdw"] =>
     let (s1, ok) := runShutdown 100000 d.s (.sd d.nextCall .call) d.finReq
     ({ d with s := quiesce 10000 s1 d.finReq, nextCall := d.nextCall + 1 }, if ok then "ok" else "timeout")
